@@ -12,10 +12,18 @@ def run(ctx):
             "case, wildcards), IPv4 literals of every textual length 7-15, 16/5/8-octet iPAddress entries, textual truncations, CN-only certificates in five string types, CN next to every kind of SAN; "
             "names of somebody else: GeneralNames (dNSName exact / wildcard / other case, rfc822Name, iPAddress, URI, alone and mixed) spelling E in the issuerAltName extension (emitted behind and before the subjectAltName) and / or in a "
             "cRLDistributionPoints fullName of a leaf with no SAN and no CN / a foreign CN / a foreign dNSName SAN / a URI-only SAN / e-mail + IP SANs (must not match), and unrelated issuer names of every kind next to a CN = E without SAN or a SAN = E (must still match). "
+            "Near misses: for EVERY name a certificate carries, of every kind (dNSName, *.wildcard dNSName, rfc822Name, URI, the dotted text of an iPAddress, CN without SAN and next to a URI-only SAN; alone, among fillers of other kinds, "
+            "and one certificate carrying DNS + e-mail (+ URI) + IP + CN at once), expected names of the same length that differ in exactly one octet, at each position: separators . @ : / - * replaced by each other, by letters / digits and by the octet with bit 5 / bit 7 flipped, "
+            "ordinary characters by a rotating candidate (thorough: every printable octet at the separators, 16 candidates elsewhere); evaluated through matrixValidateCerts, matrixValidateCertsExt with and without VALIDATE_EXPECTED_GENERAL_NAME, "
+            "every nameType and both e-mail mFlags, and the near miss in other case (classes near-miss-<kind of the name it derives from>). "
+            "Client-session path: matrixSslNewClientSession(expectedName, validateCertsOpts{nameType, mFlags}) without certificate callback against an in-process server presenting the minted leaf (TLS 1.3 with the Ed25519 leaf, TLS 1.2 ECDHE-ECDSA with a P-256 twin under a P-256 root): "
+            "near misses that pass the session API's name syntax filter at the separators (quick: one handshake each, default options 2/3 of the time, else a rotating nameType; thorough: all 16 combinations) must not complete; "
+            "a sample of the plain positive forms on single-name certificates must complete (positive control). "
             "Every SAN list (1-4 entries, fillers of all kinds incl. a NUL-terminated dNSName) is evaluated in EVERY order; each with nameType ANY and the specific types, both e-mail mFlags, and E in other case. "
             "distinct_nontrivial = distinct (relation class, kind of E, list shape, kinds present, |E|).")
     return vflib.std_run(ctx, st, "exploration", rule,
         ["a single trailing NUL on a dNSName/rfc822Name entry is stripped by the library by documented design (DISABLE_X509_GENERAL_NAME_SUPPORT_C_NULL undefined): granted, counted as lenient:*",
          "nameType ANY is documented as matching every kind; type-correctness is asserted through the specific nameTypes",
          "local-part case, wildcard CNs and multiple CNs are recorded, not asserted; VCERTS_MFLAG_ALWAYS_CHECK_SUBJECT_CN (an explicit opt-out of the SAN-before-CN rule) is not used",
-         "handshake-level outcome of a name mismatch is C04's"], min_nontrivial=150)
+         "handshake-level outcome of a name mismatch in general is C04's; here a handshake is only the second way of asking the name question (session evaluations are counted in `cases`, first SAN order only)",
+         "a near miss that only changes the case of a letter is a legitimate match (reference is case-insensitive); near misses the reference accepts but the library refuses (local-part case, '@' as wildcard label) are recorded as strict:near-miss-*, not asserted"], min_nontrivial=150)
